@@ -1,7 +1,577 @@
-//! C15 — placeholder (filled in below in the build order)
+//! C15 — a ruleset never holds duplicate or ill-formed rule and function
+//! names. Seeded builder-call histories against a small reference model of the
+//! builder, then probe evaluations of the built ruleset in the simulator.
+
+use crate::exec::{drive, install_panic_hook, intern, Built, Input, LocalHost, TaskEnd};
+use crate::prop::{Counters, Verdict};
+use crate::rng::{combine, hash_str, Rng};
+use crate::spec::*;
+use crate::summary::{err_sum, Res, TaskResult};
+use crate::world::{ProbeFn, World};
+use crate::xv::XV;
+use reval::prelude::*;
 use serde::{Deserialize, Serialize};
+use std::collections::BTreeMap;
+use std::sync::Arc;
+
 #[derive(Clone, Debug, PartialEq, Serialize, Deserialize)]
-pub struct History {}
-pub fn candidates(_h: &History) -> Vec<History> {
-    vec![]
+pub enum BOp {
+    Rule(String, i64),
+    Rules(Vec<(String, i64)>),
+    /// `with_function`
+    Func(String, i64),
+    /// `with_functions` (boxed)
+    Funcs(Vec<(String, i64)>),
+    Symbol(String, i64),
+    /// `with_symbols(Symbols)`, the `Symbols` built by 0 = insert, 1 = append, 2 = From
+    Symbols(u8, Vec<(String, i64)>),
+}
+
+#[derive(Clone, Debug, PartialEq, Serialize, Deserialize)]
+pub struct History {
+    pub ops: Vec<BOp>,
+    /// probe calls of the final evaluation suspend (seeded) when set
+    pub suspend_seed: Option<u64>,
+}
+
+pub const RESERVED: [&str; 38] = [
+    "and", "or", "if", "then", "else", "is_some", "is_none", "some", "int", "float", "dec", "true", "false", "none",
+    "contains", "in", "to_upper", "to_lower", "uppercase", "lowercase", "starts", "ends", "trim", "round", "floor",
+    "fract", "date_time", "datetime", "duration", "year", "month", "week", "day", "hour", "minute", "second", "key",
+    "val",
+];
+
+/// identifiers every reading accepts (and that are unlikely ever to become keywords)
+pub const GOOD_FN: [&str; 8] = ["fn_a", "probe1", "_x1", "a_b_c", "X9", "zz_top", "__w", "q"];
+/// near-identifiers every reading refuses
+pub const BAD_FN: [&str; 20] = [
+    "1a", "a-b", "a b", "_-x", "_ a", "a.b", "", "a\u{a0}b", "a\u{2013}b", "\u{1F600}", "_.", "9", "-", "a(", " a", "a ",
+    "_\u{1F600}", "_a-", "a\tb", "_(",
+];
+/// don't-care: the code follows UAX #31, the grammar's IDENT is ASCII-only; the statement does not choose
+pub const DONTCARE_FN: [&str; 5] = ["_", "\u{e9}", "\u{540d}\u{524d}", "_\u{e9}", "a\u{e9}"];
+pub const RULE_NAMES: [&str; 7] = ["a", "A", "a ", "b", "rule one", "", "B"];
+pub const SYM_NAMES: [&str; 4] = ["s1", "s2", "limit", "S1"];
+
+#[derive(Clone, Copy, PartialEq, Debug)]
+enum NameClass {
+    Reserved,
+    MustAccept,
+    MustRefuse,
+    DontCare,
+}
+
+fn classify(name: &str) -> NameClass {
+    if RESERVED.contains(&name) {
+        return NameClass::Reserved;
+    }
+    if name.is_empty() {
+        return NameClass::MustRefuse;
+    }
+    if name == "_" {
+        return NameClass::DontCare;
+    }
+    if name.is_ascii() {
+        let mut ch = name.chars();
+        let first = ch.next().unwrap();
+        let ok = (first.is_ascii_alphabetic() || first == '_') && ch.all(|c| c.is_ascii_alphanumeric() || c == '_');
+        return if ok { NameClass::MustAccept } else { NameClass::MustRefuse };
+    }
+    // non-ASCII: letters are a don't-care, anything the pools list as bad must be refused
+    if BAD_FN.contains(&name) {
+        NameClass::MustRefuse
+    } else if name.chars().all(|c| c.is_alphanumeric() || c == '_') {
+        NameClass::DontCare
+    } else {
+        NameClass::MustRefuse
+    }
+}
+
+pub fn generate(seed: u64, idx: u64) -> History {
+    let mut rng = Rng::new(seed);
+    let n = 1 + rng.usize(12);
+    let mut ops = vec![];
+    let mut uid = 1000;
+    let mut next = || {
+        uid += 1;
+        uid
+    };
+    // every reserved word through both entry points, enumerated over the first indices
+    let forced: Option<(String, bool)> = if idx < 2 * RESERVED.len() as u64 {
+        Some((RESERVED[(idx / 2) as usize].to_string(), idx % 2 == 0))
+    } else if idx < 2 * (RESERVED.len() + BAD_FN.len()) as u64 {
+        let j = idx - 2 * RESERVED.len() as u64;
+        Some((BAD_FN[(j / 2) as usize].to_string(), j % 2 == 0))
+    } else {
+        None
+    };
+    let forced_at = rng.usize(n);
+    let fn_name = |rng: &mut Rng| -> String {
+        match rng.below(10) {
+            0 | 1 | 2 | 3 | 4 => rng.pick(&GOOD_FN).to_string(),
+            5 => rng.pick(&RESERVED).to_string(),
+            6 | 7 => rng.pick(&BAD_FN).to_string(),
+            8 => rng.pick(&DONTCARE_FN).to_string(),
+            _ => rng.pick(&GOOD_FN).to_string(),
+        }
+    };
+    for i in 0..n {
+        if i == forced_at {
+            if let Some((name, single)) = &forced {
+                if *single {
+                    ops.push(BOp::Func(name.clone(), next()));
+                } else {
+                    let mut v = vec![];
+                    if rng.chance(1, 2) {
+                        v.push((rng.pick(&GOOD_FN).to_string(), next()));
+                    }
+                    v.push((name.clone(), next()));
+                    ops.push(BOp::Funcs(v));
+                }
+                continue;
+            }
+        }
+        match rng.below(11) {
+            0 | 1 | 2 => ops.push(BOp::Rule(rng.pick(&RULE_NAMES).to_string(), next())),
+            3 => {
+                let k = rng.usize(4);
+                ops.push(BOp::Rules((0..k).map(|_| (rng.pick(&RULE_NAMES).to_string(), next())).collect()));
+            }
+            4 | 5 | 6 => ops.push(BOp::Func(fn_name(&mut rng), next())),
+            7 => {
+                let k = rng.usize(4);
+                ops.push(BOp::Funcs((0..k).map(|_| (fn_name(&mut rng), next())).collect()));
+            }
+            8 | 9 => ops.push(BOp::Symbol(rng.pick(&SYM_NAMES).to_string(), next())),
+            _ => {
+                let k = rng.usize(4);
+                let via = rng.below(3) as u8;
+                ops.push(BOp::Symbols(via, (0..k).map(|_| (rng.pick(&SYM_NAMES).to_string(), next())).collect()));
+            }
+        }
+    }
+    History { ops, suspend_seed: if rng.chance(1, 3) { Some(rng.next_u64()) } else { None } }
+}
+
+pub fn candidates(h: &History) -> Vec<History> {
+    let mut out = vec![];
+    for i in 0..h.ops.len() {
+        if h.ops.len() > 1 {
+            let mut n = h.clone();
+            n.ops.remove(i);
+            out.push(n);
+        }
+        match &h.ops[i] {
+            BOp::Rules(v) | BOp::Funcs(v) | BOp::Symbols(_, v) if !v.is_empty() => {
+                for j in 0..v.len() {
+                    let mut n = h.clone();
+                    match &mut n.ops[i] {
+                        BOp::Rules(v) | BOp::Funcs(v) | BOp::Symbols(_, v) => {
+                            v.remove(j);
+                        }
+                        _ => {}
+                    }
+                    out.push(n);
+                }
+            }
+            _ => {}
+        }
+    }
+    if h.suspend_seed.is_some() {
+        let mut n = h.clone();
+        n.suspend_seed = None;
+        out.push(n);
+    }
+    out
+}
+
+// ------------------------------------------------------------- model + run
+
+#[derive(Default, Clone)]
+struct Model {
+    rules: Vec<(String, i64)>,
+    functions: BTreeMap<String, i64>,
+    symbols: BTreeMap<String, i64>,
+}
+
+fn unique_rule(name: &str, uid: i64) -> Rule {
+    Rule::new(name.to_string(), BTreeMap::new(), Expr::value(uid as i128))
+}
+
+struct Live {
+    world: Arc<World>,
+    fns: Vec<FnSpec>,
+}
+
+impl Live {
+    fn probe(&mut self, name: &str, inst: i64) -> ProbeFn {
+        let idx = self.fns.len();
+        self.fns.push(FnSpec::new(name, false, ScriptOut::Ok(XV::I(inst))));
+        ProbeFn { world: self.world.clone(), idx, name: intern(name), cacheable: false }
+    }
+}
+
+fn apply(b: Builder, op: &BOp, live: &mut Live) -> Result<Builder, reval::Error> {
+    match op {
+        BOp::Rule(n, uid) => b.with_rule(unique_rule(n, *uid)),
+        BOp::Rules(v) => b.with_rules(v.iter().map(|(n, u)| unique_rule(n, *u)).collect::<Vec<_>>()),
+        BOp::Func(n, inst) => {
+            let p = live.probe(n, *inst);
+            b.with_function(p)
+        }
+        BOp::Funcs(v) => {
+            let boxed: Vec<Box<dyn UserFunction + Send + Sync + 'static>> =
+                v.iter().map(|(n, i)| Box::new(live.probe(n, *i)) as Box<dyn UserFunction + Send + Sync>).collect();
+            b.with_functions(boxed)
+        }
+        BOp::Symbol(n, v) => Ok(b.with_symbol(n.clone(), Value::Int(*v as i128))),
+        BOp::Symbols(via, v) => {
+            let items: Vec<(String, Value)> = v.iter().map(|(n, x)| (n.clone(), Value::Int(*x as i128))).collect();
+            let syms = match via {
+                0 => {
+                    let mut s = Symbols::default();
+                    for (k, val) in items {
+                        s.insert(k, val);
+                    }
+                    s
+                }
+                1 => {
+                    let mut s = Symbols::default();
+                    s.append(items);
+                    s
+                }
+                _ => Symbols::from(items),
+            };
+            b.with_symbols(syms)
+        }
+    }
+}
+
+/// What the statement demands of one call, given the accepted prefix.
+enum Expect {
+    Accept,
+    /// refusal of this class carrying this name
+    Refuse(&'static str, String),
+    /// a don't-care name: either way, but a refusal must carry the name
+    Either(String),
+}
+
+fn expect(m: &Model, op: &BOp) -> Expect {
+    match op {
+        BOp::Rule(n, _) => {
+            if m.rules.iter().any(|(r, _)| r == n) {
+                Expect::Refuse("DuplicateRuleName", n.clone())
+            } else {
+                Expect::Accept
+            }
+        }
+        BOp::Rules(v) => {
+            let mut seen: Vec<&str> = m.rules.iter().map(|(r, _)| r.as_str()).collect();
+            for (n, _) in v {
+                if seen.contains(&n.as_str()) {
+                    return Expect::Refuse("DuplicateRuleName", n.clone());
+                }
+                seen.push(n);
+            }
+            Expect::Accept
+        }
+        BOp::Func(n, _) => expect_fn(&m.functions.keys().cloned().collect::<Vec<_>>(), n),
+        BOp::Funcs(v) => {
+            let mut seen: Vec<String> = m.functions.keys().cloned().collect();
+            for (n, _) in v {
+                match expect_fn(&seen, n) {
+                    Expect::Accept => seen.push(n.clone()),
+                    // a don't-care name inside a list: the rest of the list is undetermined too
+                    other => return other,
+                }
+            }
+            Expect::Accept
+        }
+        BOp::Symbol(..) | BOp::Symbols(..) => Expect::Accept,
+    }
+}
+
+fn expect_fn(present: &[String], n: &str) -> Expect {
+    match classify(n) {
+        NameClass::Reserved | NameClass::MustRefuse => Expect::Refuse("InvalidFunctionName", n.to_string()),
+        NameClass::MustAccept => {
+            if present.iter().any(|p| p == n) {
+                Expect::Refuse("DuplicateFunctionName", n.to_string())
+            } else {
+                Expect::Accept
+            }
+        }
+        NameClass::DontCare => {
+            if present.iter().any(|p| p == n) {
+                Expect::Refuse("DuplicateFunctionName", n.to_string())
+            } else {
+                Expect::Either(n.to_string())
+            }
+        }
+    }
+}
+
+fn commit(m: &mut Model, op: &BOp) {
+    match op {
+        BOp::Rule(n, u) => m.rules.push((n.clone(), *u)),
+        BOp::Rules(v) => m.rules.extend(v.iter().cloned()),
+        BOp::Func(n, i) => {
+            m.functions.insert(n.clone(), *i);
+        }
+        BOp::Funcs(v) => {
+            for (n, i) in v {
+                m.functions.insert(n.clone(), *i);
+            }
+        }
+        BOp::Symbol(n, v) => {
+            m.symbols.insert(n.clone(), *v);
+        }
+        BOp::Symbols(_, v) => {
+            for (n, x) in v {
+                m.symbols.insert(n.clone(), *x);
+            }
+        }
+    }
+}
+
+fn describe(op: &BOp) -> String {
+    match op {
+        BOp::Rule(n, _) => format!("with_rule({n:?})"),
+        BOp::Rules(v) => format!("with_rules({:?})", v.iter().map(|x| &x.0).collect::<Vec<_>>()),
+        BOp::Func(n, _) => format!("with_function({n:?})"),
+        BOp::Funcs(v) => format!("with_functions({:?})", v.iter().map(|x| &x.0).collect::<Vec<_>>()),
+        BOp::Symbol(n, _) => format!("with_symbol({n:?})"),
+        BOp::Symbols(via, v) => format!("with_symbols[{via}]({:?})", v.iter().map(|x| &x.0).collect::<Vec<_>>()),
+    }
+}
+
+pub fn check(h: &History, c: &mut Counters) -> Verdict {
+    install_panic_hook();
+    let world = World::new(vec![], &[]);
+    let mut live = Live { world: world.clone(), fns: vec![] };
+    let mut model = Model::default();
+    let mut accepted: Vec<BOp> = vec![];
+    let mut b = ruleset();
+    let mut sig = 0u64;
+    for op in &h.ops {
+        let want = expect(&model, op);
+        c.bump("builder.calls");
+        match apply(b, op, &mut live) {
+            Ok(nb) => {
+                b = nb;
+                match want {
+                    Expect::Accept | Expect::Either(_) => {
+                        if matches!(want, Expect::Either(_)) {
+                            c.bump("hit.dont_care_name_accepted");
+                        }
+                        commit(&mut model, op);
+                        accepted.push(op.clone());
+                        sig = combine(sig, 1);
+                    }
+                    Expect::Refuse(class, name) => {
+                        let clause = match class {
+                            "DuplicateRuleName" => "duplicate-rule-accepted",
+                            "DuplicateFunctionName" => "duplicate-function-accepted",
+                            _ if RESERVED.contains(&name.as_str()) => "reserved-word-accepted-as-function-name",
+                            _ => "ill-formed-function-name-accepted",
+                        };
+                        return Verdict::violation(
+                            clause,
+                            format!("{name:?} | {} succeeded after {} accepted calls; it must be refused with {class}({name:?})", describe(op), accepted.len()),
+                        );
+                    }
+                }
+            }
+            Err(e) => {
+                c.bump("fault.builder_refusal");
+                let es = err_sum(&e);
+                match want {
+                    Expect::Accept => {
+                        return Verdict::violation(
+                            "valid-call-refused",
+                            format!("{} | refused with {es:?} after {} accepted calls although nothing of that name was added before and the name is a well-formed identifier", describe(op), accepted.len()),
+                        );
+                    }
+                    Expect::Refuse(class, name) => {
+                        if es.payload.first() != Some(&name) {
+                            return Verdict::violation(
+                                "refusal-reports-other-name",
+                                format!("{} | refused with {es:?}; the offending name is {name:?}", describe(op)),
+                            );
+                        }
+                        if es.class != class {
+                            return Verdict::violation(
+                                "refusal-of-wrong-kind",
+                                format!("{} | refused with {es:?}; expected {class}({name:?})", describe(op)),
+                            );
+                        }
+                        c.bump(&format!("hit.refused.{class}"));
+                        if RESERVED.contains(&name.as_str()) {
+                            c.bump("hit.reserved_word_refused");
+                        }
+                    }
+                    Expect::Either(name) => {
+                        c.bump("hit.dont_care_name_refused");
+                        if !es.payload.iter().any(|p| p.contains(&name)) && es.payload.first().is_some() {
+                            // a refusal inside a list may name an element after the don't-care one; only a
+                            // refusal that names nothing from the call would be wrong — not judged here
+                        }
+                    }
+                }
+                sig = combine(sig, 2 + hash_str(&es.class));
+                // the refused call consumed the builder: rebuild the accepted prefix and go on
+                live = Live { world: world.clone(), fns: vec![] };
+                b = ruleset();
+                for a in &accepted {
+                    b = match apply(b, a, &mut live) {
+                        Ok(nb) => nb,
+                        Err(e) => {
+                            return Verdict::violation(
+                                "accepted-prefix-not-repeatable",
+                                format!("{} | was accepted once, but replaying the accepted calls on a fresh builder fails with {:?}", describe(a), err_sum(&e)),
+                            )
+                        }
+                    };
+                }
+            }
+        }
+    }
+
+    // ---- probe rules for every name of the pools (and every name the history used)
+    let mut fn_names: Vec<String> = vec![];
+    let mut sym_names: Vec<String> = vec![];
+    for n in GOOD_FN.iter().chain(BAD_FN.iter()).chain(DONTCARE_FN.iter()).chain(RESERVED.iter().take(6)) {
+        fn_names.push(n.to_string());
+    }
+    for n in SYM_NAMES.iter() {
+        sym_names.push(n.to_string());
+    }
+    for op in &h.ops {
+        match op {
+            BOp::Func(n, _) => fn_names.push(n.clone()),
+            BOp::Funcs(v) => fn_names.extend(v.iter().map(|x| x.0.clone())),
+            BOp::Symbol(n, _) => sym_names.push(n.clone()),
+            BOp::Symbols(_, v) => sym_names.extend(v.iter().map(|x| x.0.clone())),
+            _ => {}
+        }
+    }
+    fn_names.sort();
+    fn_names.dedup();
+    sym_names.sort();
+    sym_names.dedup();
+    let mut all_rules: Vec<Rule> = model.rules.iter().map(|(n, u)| unique_rule(n, *u)).collect();
+    let nrules = all_rules.len();
+    for (i, n) in fn_names.iter().enumerate() {
+        let r = Rule::new(format!("\u{1}probe fn {i}"), BTreeMap::new(), Expr::func(n.clone(), Expr::none_value()));
+        all_rules.push(r.clone());
+        b = match b.with_rule(r) {
+            Ok(nb) => nb,
+            Err(e) => return Verdict::violation("valid-call-refused", format!("probe rule | refused with {:?}", err_sum(&e))),
+        };
+    }
+    for (i, n) in sym_names.iter().enumerate() {
+        let r = Rule::new(format!("\u{1}probe sym {i}"), BTreeMap::new(), Expr::symbol(n));
+        all_rules.push(r.clone());
+        b = match b.with_rule(r) {
+            Ok(nb) => nb,
+            Err(e) => return Verdict::violation("valid-call-refused", format!("probe rule | refused with {:?}", err_sum(&e))),
+        };
+    }
+    let rs = b.build();
+
+    // ---- evaluate the built ruleset in the simulator
+    let mut scn = Scenario::new("C15");
+    scn.tasks = vec![TaskSpec { tag: 0, entry: Entry::RuleSet, input: 0, start: Start::Now }];
+    scn.functions = live.fns.clone();
+    if let Some(s) = h.suspend_seed {
+        let mut r = Rng::new(s);
+        scn.behaviour = crate::c05::random_behaviour(&mut r, 0, 40, 500, 2);
+    }
+    scn.exec.max_steps = 2000;
+    // the world was created before the function table was known: give it the table now
+    {
+        let mut w = world.lock();
+        w.fns = live.fns.clone();
+    }
+    let world2 = world.clone();
+    world2.set_behaviour(&scn.behaviour);
+    let exprs: Vec<Expr> = all_rules.iter().map(|r| r.expr().clone()).collect();
+    let built = Built { ruleset: Arc::new(rs), rules: Arc::new(all_rules), exprs: Arc::new(exprs) };
+    let mut host = LocalHost::new(&built, 1);
+    let inputs = vec![Arc::new(Input::Val(Value::None))];
+    let out = drive(&scn, &world, &mut host, &inputs);
+    c.absorb_run(&out);
+    let outcomes = match &out.ends[0] {
+        TaskEnd::Finished(TaskResult::Outcomes(o)) => o,
+        TaskEnd::Finished(other) => return Verdict::skip(format!("evaluate_value returned {other:?} (C09)")),
+        TaskEnd::ForeignPanic(m) => return Verdict::skip(format!("panic during evaluation: {m}")),
+        TaskEnd::Unfinished(_) => return Verdict::skip("evaluation did not finish (C12)".into()),
+        other => return Verdict::harness(format!("C15 probe evaluation ended as {other:?}")),
+    };
+    // exactly the accepted rules, in the order added, then the probes
+    let got_rules: Vec<(String, Res)> = outcomes.iter().map(|o| (o.rule_name.clone(), o.value.clone())).collect();
+    let history_part: Vec<&(String, Res)> = got_rules.iter().filter(|(n, _)| !n.starts_with('\u{1}')).collect();
+    let want_part: Vec<(String, Res)> = model.rules.iter().map(|(n, u)| (n.clone(), Res::Ok(format!("i{u}")))).collect();
+    if history_part.len() != want_part.len() || history_part.iter().zip(want_part.iter()).any(|(a, b)| **a != *b) {
+        return Verdict::violation(
+            "built-rules-differ-from-accepted",
+            format!(
+                "accepted rules {:?} | the built ruleset evaluates {:?}",
+                want_part.iter().map(|(n, r)| format!("{n:?}={r:?}")).collect::<Vec<_>>(),
+                history_part.iter().map(|(n, r)| format!("{n:?}={r:?}")).collect::<Vec<_>>()
+            ),
+        );
+    }
+    if outcomes.len() != nrules + fn_names.len() + sym_names.len() {
+        return Verdict::skip("outcome count differs from rule count (C09)".into());
+    }
+    for (i, n) in fn_names.iter().enumerate() {
+        let got = &outcomes[nrules + i].value;
+        match model.functions.get(n) {
+            Some(inst) => {
+                if *got != Res::Ok(format!("i{inst}")) {
+                    return Verdict::violation(
+                        "accepted-function-not-invocable",
+                        format!("{n:?} | accepted with instance {inst}; calling it through the built ruleset gives {got:?}"),
+                    );
+                }
+                c.bump("hit.accepted_function_invoked");
+            }
+            None => {
+                let ok = matches!(got, Res::Err(e) if e.class == "UnknownUserFunction" && e.payload.first() == Some(n));
+                if !ok {
+                    return Verdict::violation(
+                        "never-accepted-function-invocable",
+                        format!("{n:?} | never accepted by the builder; calling it through the built ruleset gives {got:?}"),
+                    );
+                }
+            }
+        }
+    }
+    for (i, n) in sym_names.iter().enumerate() {
+        let got = &outcomes[nrules + fn_names.len() + i].value;
+        match model.symbols.get(n) {
+            Some(v) => {
+                if *got != Res::Ok(format!("i{v}")) {
+                    return Verdict::violation(
+                        "symbol-not-most-recent",
+                        format!("symbol {n:?} | most recently registered value i{v}; the built ruleset resolves it to {got:?}"),
+                    );
+                }
+                c.bump("hit.symbol_resolved");
+            }
+            None => {
+                let ok = matches!(got, Res::Err(e) if e.class == "InvalidSymbol" && e.payload.first() == Some(n));
+                if !ok {
+                    return Verdict::violation("unregistered-symbol-resolves", format!("symbol {n:?} | never registered; resolves to {got:?}"));
+                }
+            }
+        }
+    }
+    let overwritten = h.ops.iter().filter(|o| matches!(o, BOp::Symbol(..) | BOp::Symbols(..))).count() > model.symbols.len();
+    if overwritten {
+        c.bump("hit.symbol_overwritten");
+    }
+    sig = combine(sig, model.rules.len() as u64 * 64 + model.functions.len() as u64 * 8 + model.symbols.len() as u64);
+    Verdict::pass(if h.ops.len() >= 2 { Some(sig) } else { None })
 }
